@@ -6,6 +6,7 @@ vectors (events) judged by TLC (spec/WbemUriTrace.tla).
 
 Python only concretises, drives and projects; every verdict is TLC's.
 """
+import copy
 import math
 import re
 import warnings
@@ -40,6 +41,7 @@ INT_RANGE = {"uint8": (0, 2**8 - 1), "uint16": (0, 2**16 - 1),
              "sint8": (-2**7, 2**7 - 1), "sint16": (-2**15, 2**15 - 1),
              "sint32": (-2**31, 2**31 - 1), "sint64": (-2**63, 2**63 - 1)}
 REAL_TYPES = {"real32": Real32, "real64": Real64}
+UNIQ_BASE = 1000000       # N5 in histories: UNIQ_BASE + index of the history
 FMTS = ["standard", "historical", "canonical", "cimobject"]
 NOPATH = {"kind": "none", "hashost": False, "host": [], "hasns": False,
           "ns": [], "cls": [], "kb": []}
@@ -59,6 +61,10 @@ class CharMap:
         self.rng = rng
         self.mixed = mixed_case      # parser input: words in random case
         self.rev = {v: k for k, v in self.m.items() if len(v) == 1}
+        # histories: the digit token N5 stands for "some number"; it is
+        # concretised as a number that is unique for the history, so that the
+        # texts of different histories replayed in one process never coincide
+        self.uniq = None
 
     def word(self, w):
         if not self.mixed:
@@ -69,12 +75,15 @@ class CharMap:
         if s in self.m:
             return self.m[s]
         if s[0] == "N" and s[1:].isdigit():
-            return s[1:]
+            return str(self.num(s))
         if s in WORDS:
             return self.word(WORDS[s]) if self.mixed else WORDS[s].upper()
         if s in LEX:
             return self.word(LEX[s])
         raise KeyError(s)
+
+    def num(self, tok):
+        return self.uniq if self.uniq and tok == "N5" else int(tok[1:])
 
     def text(self, syms, lower_words=False):
         out = []
@@ -97,7 +106,9 @@ class CharMap:
             k = m.lastgroup
             if k == "num":
                 t = "N" + m.group()
-                if t in DIGIT_TOKS:
+                if self.uniq and m.group() == str(self.uniq):
+                    out.append("N5")
+                elif t in DIGIT_TOKS:
                     out.append(t)
                 elif all("N" + c in DIGIT_TOKS for c in m.group()):
                     out.extend("N" + c for c in m.group())
@@ -128,6 +139,8 @@ def conc_value(cm, v):
         return v["s"] == ["T"]
     if t == "int":
         n = int(lit_text(v["s"]))
+        if cm.uniq and v["s"] == ["N5"]:
+            n = cm.uniq
         return n if v["w"] == "py" else INT_TYPES[v["w"]](n)
     if t == "real":
         f = float(lit_text(v["s"]))
@@ -159,9 +172,11 @@ def val(t, w, s, r):
     return {"t": t, "w": w, "s": s, "r": r}
 
 
-def int_lit(n):
+def int_lit(n, cm=None):
     tok = "N%d" % abs(n)
-    if tok not in DIGIT_TOKS:
+    if cm is not None and cm.uniq and n == cm.uniq:
+        tok = "N5"
+    elif tok not in DIGIT_TOKS:
         tok = "UNCLASSIFIED:" + tok
     return (["mi"] if n < 0 else []) + [tok]
 
@@ -173,7 +188,7 @@ def proj_value(cm, x):
         return val("string", "", cm.project(x), [])
     if isinstance(x, int):
         w = getattr(x, "cimtype", None) or "py"
-        return val("int", w, int_lit(int(x)), [])
+        return val("int", w, int_lit(int(x), cm), [])
     if isinstance(x, float):
         w = getattr(x, "cimtype", None) or "py"
         f = float(x)
@@ -336,6 +351,152 @@ def parse_event(text, syms=None):
             {"text": text, "inst": di, "class": dc})
 
 
+# ----------------------------------------------------------------------------
+# histories (spec/WbemUriHeap.tla, WbemUriHist.tla): Parse / Mutate / Print
+# ----------------------------------------------------------------------------
+
+def _first_ref(obj):
+    """the reference the spec's places follow: first reference keybinding"""
+    if not isinstance(obj, CIMInstanceName):
+        return None
+    for v in obj.keybindings.values():
+        if isinstance(v, CIMInstanceName):
+            return v
+    return None
+
+
+def _mutate_real(cm, newvals, obj, d, f):
+    """obj.<first reference> ... (d times) .<field f> = <new value>;
+    returns False if the place does not exist in the real object"""
+    tgt = obj
+    for _ in range(d):
+        tgt = _first_ref(tgt)
+        if tgt is None:
+            return False
+    if f == "ns":
+        tgt.namespace = cm.text(newvals["ns"])
+    elif f == "host":
+        tgt.host = cm.text(newvals["host"])
+    elif f == "cls":
+        tgt.classname = cm.text(newvals["cls"])
+    elif f == "kbset":
+        if not isinstance(tgt, CIMInstanceName):
+            return False
+        for k, v in tgt.keybindings.items():
+            if not isinstance(v, CIMInstanceName):
+                tgt.keybindings[k] = cm.text(newvals["str"])
+                return True
+        return False
+    elif f == "kbadd":
+        if not isinstance(tgt, CIMInstanceName):
+            return False
+        tgt.keybindings[cm.text(newvals["key"])] = cm.text(newvals["str"])
+    else:
+        return False
+    return True
+
+
+def history_events(rng, texts, newvals, steps, uniq):
+    """Drive one TLC-generated history on the real code.
+    texts: the spec's HistTexts [{p, fmt}]; steps: [kind, n, d, x] with
+    parse: n = text index (> len(texts): the text of the (n-len)th print
+    step), mutate: n = handle, d = depth, x = field, print: n = handle,
+    x = format.  Texts are registered (htext) when first used, so the text
+    indices of the events are local to the trace.
+    Returns (events, info); the trace stops at the first call that raises."""
+    cm = CharMap(rng)
+    cm.uniq = uniq
+    events, info = [], []
+    local = {}          # spec text index -> index in the trace
+    srcs = []           # (uri, class, untouched equal object)
+    handles = []
+    nprints = 0
+
+    def snapshot():
+        return [project(cm, o) for o in handles]
+
+    def emit(ev, **inf):
+        events.append(ev)
+        info.append(inf)
+
+    with warnings.catch_warnings():
+        warnings.simplefilter("ignore")
+        for kind, n, d, x in steps:
+            if kind == "parse":
+                if n not in local:
+                    if not 1 <= n <= len(texts):
+                        raise ValueError("history refers to unknown text %d"
+                                         % n)
+                    src = texts[n - 1]
+                    obj = concretize(cm, src["p"])
+                    ev = {"kind": "htext", "p": src["p"], "fmt": src["fmt"],
+                          "printed": "ok", "text": []}
+                    try:
+                        uri, how = do_print(obj, src["fmt"], rng)
+                    except Exception as e:  # noqa
+                        ev["printed"] = "PrintError:%s" % type(e).__name__
+                        emit(ev, obj=repr(obj), exc=str(e)[:200])
+                        return events, info
+                    ev["text"] = cm.project(uri)
+                    emit(ev, obj=repr(obj), how=how, uri=uri)
+                    srcs.append((uri, type(obj), obj))
+                    local[n] = len(srcs)
+                uri, cls, orig = srcs[local[n] - 1]
+                ev = {"kind": "hparse", "t": local[n], "outcome": "",
+                      "q": NOPATH, "eq": False, "heap": []}
+                try:
+                    back = cls.from_wbem_uri(uri)
+                except Exception as e:  # noqa
+                    ev["outcome"] = classify_exc(e)
+                    ev["heap"] = snapshot()
+                    emit(ev, call="from_wbem_uri(%r)" % uri,
+                         exc="%s: %s" % (type(e).__name__, str(e)[:200]))
+                    return events, info
+                handles.append(back)
+                ev["outcome"] = "path"
+                ev["heap"] = snapshot()
+                ev["q"] = ev["heap"][-1]
+                try:
+                    ev["eq"] = bool(back == orig)
+                except Exception:  # noqa
+                    ev["eq"] = False
+                emit(ev, call="h%d = %s.from_wbem_uri(%r)" %
+                     (len(handles), cls.__name__, uri), back=repr(back))
+            elif kind == "mutate":
+                ev = {"kind": "hmutate", "h": n, "d": d, "f": x, "heap": []}
+                done = 1 <= n <= len(handles) and \
+                    _mutate_real(cm, newvals, handles[n - 1], d, x)
+                ev["heap"] = snapshot()
+                emit(ev, call="h%d%s.%s = <new>" % (n, ".<ref>" * d, x),
+                     done=done)
+            elif kind == "print":
+                ev = {"kind": "hprint", "h": n, "fmt": x, "printed": "ok",
+                      "text": [], "pk": "none", "heap": []}
+                if not 1 <= n <= len(handles):
+                    raise ValueError("history prints unknown object %d" % n)
+                obj = handles[n - 1]
+                ev["pk"] = "class" if isinstance(obj, CIMClassName) \
+                    else "inst"
+                keep = copy.deepcopy(obj)
+                try:
+                    uri, how = do_print(obj, x, rng)
+                except Exception as e:  # noqa
+                    ev["printed"] = "PrintError:%s" % type(e).__name__
+                    ev["heap"] = snapshot()
+                    emit(ev, call="h%d.to_wbem_uri(%r)" % (n, x),
+                         exc=str(e)[:200])
+                    return events, info
+                ev["text"] = cm.project(uri)
+                ev["heap"] = snapshot()
+                emit(ev, call="h%d.%s" % (n, how), uri=uri)
+                nprints += 1
+                srcs.append((uri, type(obj), keep))
+                local[len(texts) + nprints] = len(srcs)
+            else:
+                raise ValueError("unknown step %r" % kind)
+    return events, info
+
+
 def mutate(rng, syms, mutsyms):
     """one application of the spec's Mutations operator"""
     syms = list(syms)
@@ -402,4 +563,9 @@ def probe_variant():
     r = parses('C.k="%sx"' % DT_TEXT)
     flags["C07_DTPREFIX"] = r is not None and \
         isinstance(r.keybindings["k"], CIMDateTime)
+    # results shared between calls (a cache): identity of two results
+    r1, r2 = parses('C.k="/:D.x=77001"'), parses('C.k="/:D.x=77001"')
+    flags["C07_CACHEALL"] = r1 is not None and r1 is r2
+    flags["C07_CACHEREFS"] = r1 is not None and r2 is not None and \
+        r1 is not r2 and r1.keybindings["k"] is r2.keybindings["k"]
     return {k: ("1" if v else "0") for k, v in flags.items()}
